@@ -22,7 +22,7 @@ RULE = (
     "Scalar(1,u,c) builds for every unit and category of its type and holds the category as registered now, as does the "
     "unit-only form ObtainQuantity(u), CheckCategoryUnit of every (category name, unit symbol) of the pools - registered "
     "or not yet - agrees with the model after every step; a rejected call leaves the full snapshot identical. "
-    "(c) static sweep of the three shipped databases with the same invariants. Unit symbols include two that merely contain a legacy fragment (lbmole(lab), 1000m3(st)). Non-trivial = history with a rejection, "
+    "(c) static sweep of the three shipped databases with the same invariants. Unit symbols include two that merely contain a legacy fragment (lbmole(lab), 1000m3(st)). A second database in which the pool's names mean the opposite is asked before a third of the lookups; default values exactly on and a hair beside inclusive and exclusive limits are registered (exact comparison). Non-trivial = history with a rejection, "
     "an override or a unit registered before its base; key = the history."
 )
 ASSUMPTIONS = [
@@ -67,7 +67,41 @@ OPS = [
 ]
 
 
+EDGE_CATS = [
+    ["cat", "e1", {"quantity_type": "L", "max_value": 10.0, "default_value": 10.0000004}],
+    ["cat", "e2", {"quantity_type": "L", "min_value": 0.0, "default_value": -4e-7}],
+    ["cat", "e3", {"quantity_type": "L", "max_value": 0.3, "default_value": 0.1 + 0.2}],
+    ["cat", "e4", {"quantity_type": "L", "min_value": 2e-7, "max_value": 5e-7, "default_value": 0.0}],
+    ["cat", "e5", {"quantity_type": "L", "max_value": 10.0, "default_value": 10.0}],
+    ["cat", "e6", {"quantity_type": "L", "max_value": 10.0, "is_max_exclusive": True, "default_value": 10.0}],
+    ["cat", "e7", {"quantity_type": "L", "min_value": 1e-9, "default_value": 1e-9}],
+    ["cat", "e8", {"quantity_type": "L", "min_value": 1e-9, "is_min_exclusive": True, "default_value": 1e-9}],
+    ["cat", "e9", {"from_category": "depth", "default_value": 10.0000004}],
+    ["cat", "e10", {"from_category": "depth", "default_value": -3e-10}],
+    ["cat", "e11", {"quantity_type": "L", "min_value": -1.0, "max_value": 1.0, "default_value": 1.0 + 2e-16}],
+]
 POOL_CATEGORIES = ["L", "T", "depth", "x", "moles", "y", "M"]
+_DECOY = []
+
+
+def _decoy_db():
+    """a database alive next to the one under test in which the pool's names mean the opposite (L holds the time units,
+    T the length units, every category of the pool exists)"""
+    if not _DECOY:
+        from barril.units import UnitDatabase
+
+        d = UnitDatabase()
+        d.AddUnitBase("L", "second", "s")
+        d.AddUnit("L", "minute", "min", "%f/60.0", "%f*60.0")
+        d.AddUnit("L", "lbmol", "lbmol", "%f*2.0", "%f/2.0")
+        d.AddUnitBase("T", "metre", "m")
+        d.AddUnit("T", "centimetre", "cm", "%f*100.0", "%f/100.0")
+        d.AddUnit("T", "kilometre", "km", "%f/1000.0", "%f*1000.0")
+        d.AddUnit("T", "kilogram", "kg", "%f*3.0", "%f/3.0")
+        for c, qt in (("L", "L"), ("T", "T"), ("depth", "T"), ("x", "L"), ("moles", "T"), ("y", "L"), ("M", "L")):
+            d.AddCategory(c, qt)
+        _DECOY.append(d)
+    return _DECOY[0]
 POOL_UNITS = ["m", "cm", "km", "s", "min", "lbmol", "kg"]
 
 
@@ -268,8 +302,16 @@ def observe(db, m):
             return ("INV unit-only quantity does not reflect the registered category", u, got, want)
     # every (category name, unit symbol) of the pools is looked up after every step - also names that are not (yet)
     # registered: the verdict is the model's, whatever was asked (and refused) before
-    for c in POOL_CATEGORIES:
-        for u in POOL_UNITS:
+    decoy = _decoy_db()
+    for ic, c in enumerate(POOL_CATEGORIES):
+        for iu, u in enumerate(POOL_UNITS):
+            # another database that answers the same names the other way round is asked first (for a third of the pairs):
+            # its verdicts are its own
+            if (ic + iu) % 3 == 0:
+                try:
+                    decoy.CheckCategoryUnit(c, u)
+                except Exception:
+                    pass
             try:
                 db.CheckCategoryUnit(c, u)
                 got = True
@@ -487,6 +529,9 @@ def gen_op():
             v = draw(lim)
             if v is not None:
                 kw[k] = v
+        if "default_value" in kw and draw(st.integers(0, 3)) == 0:
+            # a default a hair outside an (inclusive or exclusive) limit is outside
+            kw["default_value"] = kw["default_value"] + draw(st.sampled_from([4e-7, -4e-7, 3e-10, -3e-10]))
         if draw(st.integers(0, 4)) == 0:
             kw["is_min_exclusive"] = True
         if draw(st.integers(0, 4)) == 0:
@@ -534,6 +579,13 @@ def run_shard(spec, ctx):
                 if total % 4001 == 0 and len(ctx.samples) < 4:
                     ctx.sample({"ops": seq})
 
+        if spec["i"] == 0:
+            # default values exactly on, and a hair beside, inclusive and exclusive limits (the comparison is exact)
+            for e in EDGE_CATS:
+                for prefix in ([OPS[0]], [OPS[0], OPS[9], OPS[11]]):
+                    flags = run_history(ctx, prefix + [e], rec)
+                    total += 1
+                    ctx.cls("histories_with_default_value_at_a_limit")
         for L in range(1, depth + 1):
             run_all(L)
         ctx.exhaustive["registration histories over the %d-call alphabet" % nops] = "all of length <= %d" % depth
